@@ -7,7 +7,7 @@ Init == i \in 1..Len(Recs) /\ ph = 0
 Next == ph = 0 /\ ph' = 1 /\ UNCHANGED i
 J == ph = 1
 R == Recs[i]
-Bytes == Concat(Cat[R.si].frames)
+Bytes == BytesOf(Cat[R.si])
 W == Whole(Bytes, R.max)
 IsSig(m) == m.code \in 225..229
 Sum(s) == FoldFunction(LAMBDA a, b : (a + b) % 65521, 0, s)
